@@ -658,3 +658,141 @@ Proof.
     + apply Forall_app. split; assumption.
   - apply (fa_roundtrip wrapf Hwrap); assumption.
 Qed.
+
+(* ====================================================================== *)
+(* Lifting per-protein facts to the result of _shuffle_proteins *)
+(* ====================================================================== *)
+Lemma dc_shuffle_proteins_lift draw rv (Q : str * str * list nat -> str * str -> Prop) prefix :
+  dc_perm_contract draw ->
+  (forall pr dc, dc_sites_ok (snd pr) (snd (fst pr)) -> dc_decoy_of rv prefix pr dc -> Q pr dc) ->
+  forall prots decoys,
+  Forall (fun pr => dc_sites_ok (snd pr) (snd (fst pr))) prots ->
+  dc_shuffle_proteins draw rv prefix prots = Ok decoys -> Forall2 Q prots decoys.
+Proof.
+  intros Hdraw HQ prots decoys Hok H.
+  destruct (dc_shuffle_proteins_spec draw Hdraw rv prefix prots Hok) as (decoys' & Hrun & Hdec).
+  rewrite Hrun in H. inversion H; subst decoys'. clear H Hrun.
+  induction Hdec as [|pr dc prots decoys Hpd Hdec IH]; [constructor|].
+  inversion Hok; subst. constructor; [apply HQ; assumption | apply IH; assumption].
+Qed.
+
+Definition dc_seq_of (pr : str * str * list nat) : str := snd (fst pr).
+Definition dc_name_of (pr : str * str * list nat) : str := fst (fst pr).
+Definition dc_sites_of (pr : str * str * list nat) : list nat := snd pr.
+Definition dc_prots_ok (prots : list (str * str * list nat)) : Prop :=
+  Forall (fun pr => dc_sites_ok (dc_sites_of pr) (dc_seq_of pr)) prots.
+
+Section Lifted.
+  Variable draw : nat -> nat -> list nat.
+  Hypothesis Hdraw : dc_perm_contract draw.
+  Variables (rv : bool) (prefix : str) (prots : list (str * str * list nat)) (decoys : list (str * str)).
+  Hypothesis Hok : dc_prots_ok prots.
+  Hypothesis Hrun : dc_shuffle_proteins draw rv prefix prots = Ok decoys.
+
+  Lemma dc_lift_name_len_comp :
+    Forall2 (fun pr dc => fst dc = prefix ++ dc_name_of pr /\ length (snd dc) = length (dc_seq_of pr)
+                          /\ Permutation (snd dc) (dc_seq_of pr)) prots decoys.
+  Proof.
+    apply (dc_shuffle_proteins_lift draw rv _ prefix Hdraw); [|exact Hok|exact Hrun].
+    intros pr dc Hs [Hn Hd]. pose proof (dc_struct_perm _ _ _ _ Hs Hd) as HP.
+    split; [exact Hn|]. split; [apply Permutation_length; exact HP | exact HP].
+  Qed.
+
+  Lemma dc_lift_spec :
+    Forall2 (fun pr dc => dc_decoy_spec rv (dc_sites_of pr) (dc_seq_of pr) (snd dc)) prots decoys.
+  Proof.
+    apply (dc_shuffle_proteins_lift draw rv _ prefix Hdraw); [|exact Hok|exact Hrun].
+    intros pr dc Hs [_ Hd]. apply dc_struct_spec; assumption.
+  Qed.
+
+  Lemma dc_lift_termini :
+    Forall2 (fun pr dc => forall x y, dc_consecutive (dc_sites_of pr) x y -> x < y ->
+               nth_error (snd dc) x = nth_error (dc_seq_of pr) x /\
+               nth_error (snd dc) (y - 1) = nth_error (dc_seq_of pr) (y - 1)) prots decoys.
+  Proof.
+    apply (dc_shuffle_proteins_lift draw rv _ prefix Hdraw); [|exact Hok|exact Hrun].
+    intros pr dc Hs [_ Hd] x y Hc Hxy.
+    apply (dc_spec_termini rv _ _ _ x y Hs (dc_struct_spec _ _ _ _ Hs Hd) Hc Hxy).
+  Qed.
+
+  Lemma dc_lift_peptides :
+    Forall2 (fun pr dc => forall x y, dc_consecutive (dc_sites_of pr) x y ->
+               Permutation (pyslice (snd dc) x y) (pyslice (dc_seq_of pr) x y)) prots decoys.
+  Proof.
+    apply (dc_shuffle_proteins_lift draw rv _ prefix Hdraw); [|exact Hok|exact Hrun].
+    intros pr dc Hs [_ Hd] x y Hc.
+    apply (dc_spec_peptide_perm rv _ _ _ x y (dc_struct_spec _ _ _ _ Hs Hd) Hc).
+  Qed.
+
+  Lemma dc_lift_reverse : rv = true ->
+    Forall2 (fun pr dc => forall x y, dc_consecutive (dc_sites_of pr) x y ->
+               pyslice (snd dc) (S x) (y - 1) = rev (pyslice (dc_seq_of pr) (S x) (y - 1))) prots decoys.
+  Proof.
+    intros Hrv. apply (dc_shuffle_proteins_lift draw rv _ prefix Hdraw); [|exact Hok|exact Hrun].
+    intros pr dc Hs [_ Hd] x y Hc. subst rv.
+    apply (dc_spec_reverse _ _ _ x y Hs (dc_struct_spec _ _ _ _ Hs Hd) Hc).
+  Qed.
+
+  Lemma dc_lift_sites_same cls :
+    Forall (fun pr => dc_sites_of pr = dc_sites cls (dc_seq_of pr)) prots ->
+    Forall2 (fun pr dc => dc_sites cls (snd dc) = dc_sites cls (dc_seq_of pr)) prots decoys.
+  Proof.
+    intros Hcls.
+    assert (H : Forall2 (fun pr dc => dc_sites_of pr = dc_sites cls (dc_seq_of pr) ->
+                            dc_sites cls (snd dc) = dc_sites cls (dc_seq_of pr)) prots decoys).
+    { apply (dc_shuffle_proteins_lift draw rv _ prefix Hdraw); [|exact Hok|exact Hrun].
+      intros pr dc Hs [_ Hd] E. unfold dc_sites_of, dc_seq_of in *. rewrite E in Hd.
+      apply (dc_struct_sites_same cls rv _ _ Hd). }
+    clear Hrun Hok. induction H as [|pr dc prots' decoys' Hpd H IH]; [constructor|].
+    inversion Hcls; subst. constructor; [apply Hpd; assumption | apply IH; assumption].
+  Qed.
+End Lifted.
+
+Lemma dc_Forall2_length {A B} (R : A -> B -> Prop) l l' : Forall2 R l l' -> length l = length l'.
+Proof. induction 1; cbn; congruence. Qed.
+
+(* make_decoys with a residue-class enzyme, in terms of _shuffle_proteins *)
+Theorem dc_entries_class draw rv : dc_perm_contract draw ->
+  forall files prefix cls conc entries,
+  dc_entries draw files prefix (DcClass cls) rv conc = Ok entries ->
+  exists targets decoys,
+    fa_parse_files files = Ok targets /\
+    dc_shuffle_proteins draw rv prefix (map (fun e => (e, dc_sites cls (snd e))) targets) = Ok decoys /\
+    length decoys = length targets /\
+    entries = (if conc then targets ++ decoys else decoys).
+Proof.
+  intros Hdraw files prefix cls conc entries H. unfold dc_entries in H.
+  destruct (fa_parse_files files) as [targets|e] eqn:P; cbn [bind] in H; [|discriminate].
+  rewrite dc_attach_total_class in H. cbn [bind] in H.
+  assert (Emap : map (fun e => (fst e, snd e, dc_sites cls (snd e))) targets
+                 = map (fun e => (e, dc_sites cls (snd e))) targets).
+  { apply map_ext. intros [n s]. reflexivity. }
+  rewrite Emap in H.
+  destruct (dc_shuffle_proteins draw rv prefix _) as [decoys|e] eqn:S; cbn [bind] in H; [|discriminate].
+  inversion H; subst entries. exists targets, decoys.
+  split; [reflexivity|]. split; [exact S|]. split; [|reflexivity].
+  assert (Hok : dc_prots_ok (map (fun e => (e, dc_sites cls (snd e))) targets)).
+  { unfold dc_prots_ok. rewrite Forall_forall. intros pr Hin. apply in_map_iff in Hin.
+    destruct Hin as (e & <- & _). apply dc_sites_sites_ok. }
+  pose proof (dc_lift_name_len_comp draw Hdraw rv prefix _ decoys Hok S) as HF.
+  apply dc_Forall2_length in HF. rewrite map_length in HF. symmetry. exact HF.
+Qed.
+
+Lemma dc_class_prots_ok cls targets :
+  dc_prots_ok (map (fun e => (e, dc_sites cls (snd e))) targets) /\
+  Forall (fun pr => dc_sites_of pr = dc_sites cls (dc_seq_of pr)) (map (fun e => (e, dc_sites cls (snd e))) targets).
+Proof.
+  split.
+  - unfold dc_prots_ok. rewrite Forall_forall. intros pr Hin. apply in_map_iff in Hin.
+    destruct Hin as (e & <- & _). apply dc_sites_sites_ok.
+  - rewrite Forall_forall. intros pr Hin. apply in_map_iff in Hin. destruct Hin as (e & <- & _). reflexivity.
+Qed.
+
+(* a concrete oracle meeting the contract: rotate left by one (used for the examples) *)
+Definition dc_rot_draw (j k : nat) : list nat :=
+  match seq 0 k with [] => [] | x :: r => r ++ [x] end.
+Lemma dc_rot_draw_contract : dc_perm_contract dc_rot_draw.
+Proof.
+  intros j k. unfold dc_rot_draw. destruct (seq 0 k) as [|x r]; [constructor|].
+  apply Permutation_sym. apply Permutation_cons_append.
+Qed.
